@@ -22,7 +22,12 @@ riscv_analysis/src/lints/callee_saved_register.rs riscv_analysis/src/lints/garba
 riscv_analysis/src/lints/callee_saved_garbage_read.rs riscv_analysis/src/lints/overlapping_function.rs riscv_analysis/src/lints/save_to_zero.rs
 riscv_analysis/src/passes/manager.rs riscv_analysis/src/passes/lint_error.rs riscv_analysis/src/passes/cfg_error.rs riscv_analysis/src/passes/diagnostics.rs
 riscv_analysis/src/passes/diagnostic_manager.rs
-riscv_analysis_cli/src/main.rs riscv_analysis_cli/src/printer.rs""".split()
+riscv_analysis_cli/src/main.rs riscv_analysis_cli/src/printer.rs
+riscv_analysis/src/cfg/iterator.rs riscv_analysis/src/cfg/ecall.rs riscv_analysis/src/cfg/interrupt_handler.rs riscv_analysis/src/cfg/ref_cell_replacement.rs
+riscv_analysis/src/cfg/test_wrapper.rs riscv_analysis/src/cfg/node_gen_kill.rs riscv_analysis/src/cfg/node_instruction_properties.rs riscv_analysis/src/cfg/display.rs
+riscv_analysis/src/parser/position.rs riscv_analysis/src/parser/range.rs riscv_analysis/src/parser/token.rs riscv_analysis/src/parser/with.rs
+riscv_analysis/src/parser/directive.rs riscv_analysis/src/parser/error.rs riscv_analysis/src/parser/empty_file_reader.rs riscv_analysis/src/parser/rawtoken.rs
+riscv_analysis/src/lints/instruction_in_text.rs riscv_analysis/src/passes/simple_error.rs riscv_analysis/src/parser/node.rs""".split()
 
 OPS = [
     (r"(?<![<>=!&|+\-*/])<=(?!=)", "<"), (r"(?<![<>=!\-])<(?![<=])(?=\s)", "<="), (r"(?<![<>=!])>=(?!=)", ">"),
